@@ -22,6 +22,7 @@ pub mod c19;
 pub mod c20;
 pub mod extra;
 pub mod extra2;
+pub mod extra3;
 
 pub fn all() -> Vec<Property> {
     let mut v = vec![
@@ -48,5 +49,6 @@ pub fn all() -> Vec<Property> {
     ];
     extra::extend(&mut v);
     extra2::extend(&mut v);
+    extra3::extend(&mut v);
     v
 }
